@@ -363,7 +363,7 @@ func runFlood(c floodCase) (f *vh.Failure) {
 	// the consumer: every call either yields the package or one of the connection's errors
 	errs := 0
 	var got tds.Package
-	deadline := time.Now().Add(5 * time.Second)
+	deadline := time.Now().Add(3 * time.Second)
 	for got == nil && time.Now().Before(deadline) {
 		wctx, cancel := context.WithTimeout(e.bg, time.Second)
 		p, err := ch.NextPackage(wctx, true)
@@ -377,7 +377,7 @@ func runFlood(c floodCase) (f *vh.Failure) {
 		}
 	}
 	if got == nil {
-		return vh.Failf("C12/delivery-stops-after-stray-packets", "%+v: after %d packets for channels nobody has, the response for channel %d was not delivered within 5 s (%d connection errors reported)", c, c.Stray, ch.VerifID(), errs)
+		return vh.Failf("C12/delivery-stops-after-stray-packets", "%+v: after %d packets for channels nobody has, the response for channel %d was not delivered within 3 s (%d connection errors reported)", c, c.Stray, ch.VerifID(), errs)
 	}
 	if _, ok := got.(*tds.ReturnStatusPackage); !ok {
 		return vh.Failf("C12/wrong-delivery", "%+v: channel %d received %T", c, ch.VerifID(), got)
